@@ -122,7 +122,7 @@ def run(ctx):
         site = ctx.site('io_loop::IoLoop::is_connection_done')
         r.eq('done:Steady', t.get('Steady'), 'false', site)
         r.eq('done:ClientClosed', t.get('ClientClosed'), 'true', site)
-        flush = '!io_loop::Inner::has_data_to_write(self.inner)'
+        flush = 'serialize::SealableOutputBuffer::is_empty(self.inner.outbuf)'  # nothing left to write (has_data_to_write() is read through)
         r.eq('done:ServerClosing', t.get('ServerClosing'), flush, site, why='finish only when everything queued (incl. CloseOk) has been written')
         r.eq('done:ClientException', t.get('ClientException'), flush, site)
         rows = P.table(ctx, 'io_loop::IoLoop::run_connection', ['self', 'stream', 'ch0_slot'])
@@ -136,9 +136,7 @@ def run(ctx):
              'errors::ServerClosedConnectionSnafu::fail(errors::ServerClosedConnectionSnafu{code: $m0.ServerClosing.0.reply_code, message: $m0.ServerClosing.0.reply_text})', site)
         r.eq('result:ClientClosed', got.get(CS + 'ClientClosed'), 'Ok(())', site)
         r.eq('result:ClientException', got.get(CS + 'ClientException'), 'errors::ClientExceptionSnafu::fail(errors::ClientExceptionSnafu)', site)
-        # has_data_to_write = !outbuf.is_empty()
-        ev = ctx.evaluator(0)
-        r.eq('has_data_to_write', S.show(ev.run_fn('io_loop::Inner::has_data_to_write')), '!serialize::SealableOutputBuffer::is_empty(self.outbuf)', ctx.site('io_loop::Inner::has_data_to_write'))
+        # has_data_to_write() is read through wherever it is used (the rows above name the buffer itself); nothing to anchor here
 
     with ctx.rule('R08.7', "Connection::close reports the I/O thread's result (the server's close) before its own", floor=4) as r:
         A.include(ctx, r, 'c05', 'R05.5')
